@@ -57,8 +57,10 @@ class GenericSrv6ServiceDataSubSubTlv:
         return 'SRv6 Service Data Sub-Sub-TLV type %d not implemented' % self.code
 
     def json(self, compact: bool | None = None) -> str:
-        # Generic/unknown TLV - show type code and hex data
-        return f'{{"type": {self.code}, "raw": "{bytes(self._packed).hex()}"}}'
+        # Generic/unknown TLV - show type code and hex data.  The caller joins these into the
+        # members of an object, so this must be a key and its value: a bare { } made the whole
+        # event unparseable
+        return f'"unknown-sub-sub-tlv-{self.code}": "{bytes(self._packed).hex()}"'
 
     def pack_tlv(self) -> Buffer:
         return self._packed
